@@ -88,7 +88,7 @@ def build(ctx):
     try:
         os.makedirs(cache, exist_ok=True)
         old = sorted(os.listdir(cache), key=lambda f: os.path.getmtime(os.path.join(cache, f)))
-        for f in old[:-6]:
+        for f in old[:-3]:
             os.remove(os.path.join(cache, f))
         tmp = cached + ".%d" % os.getpid()
         shutil.copy(binp, tmp)
@@ -755,7 +755,7 @@ def judge(ctx, binp, exes, bad):
                                       "rejected_line": r[0][1], "invariants": r[0][2] or invs}))
         except Exception as ex:
             err.append(ex)
-    sem = threading.Semaphore(4)
+    sem = threading.Semaphore(8)
 
     def guarded(*a):
         with sem:
@@ -873,8 +873,8 @@ def run(ctx):
     # ---- 2. spec -> code: TLC's behaviours on every option
     rng = vlib.Rng(ctx.seed)
     exes = []
-    per_opt = 100 if quick else 2500
-    nrand = 24 if quick else 1000
+    per_opt = 80 if quick else 2500
+    nrand = 20 if quick else 1000
     for oi, o in enumerate(opts):
         mine = []
         for bi, b in enumerate(behs):
